@@ -97,6 +97,20 @@ CHECKS["C14"] = dict(
     ref="§4 C14",
     note=COMMON_NOTE + " Float/real gap: reversibility checked to 1e-9 relative, model comparison to 1e-12 relative.")
 
+CHECKS["C10"] = dict(
+    technique="Coq proof over the reals (Model/Ops.v, Proofs/OpsProofs.v, Props/C10.v: ring/nra/field on explicit 3-vectors and 3x3 "
+              "matrices, sin^2+cos^2, matrix-exponential contract as Section hypotheses with a consistency witness) + scripted-generator "
+              "correspondence of every operation.calculate() with the same definitions evaluated by the Coq-Interval tactic",
+    text="Theorems for all steps/strains, draws in support, cells, groups, masses, masks: |ball| = r <= step, |sphere| = step, box within "
+         "+-step; translation puts the centroid at frac@cell and is rigid; ASE's Euler matrix is orthogonal, rotation about any centre is "
+         "rigid and about the centre of mass keeps it; composite = sum of parts; iso = e^u 1; shape has det 1, default-mask gradients "
+         "are symmetric positive-definite, masked-out entries equal the identity (under the stated expm contract); symmetry as "
+         "involutions of the draws: ball/sphere/box negate, deformations and rotation give the inverse.",
+    ref="§4 C10",
+    note=COMMON_NOTE + " scipy.linalg.expm is a hypothesis-carrying parameter (five standard facts, numerically validated each run, jointly "
+         "satisfiable); that the involutions preserve the joint uniform law is the one informal step. The scripted tie depends on the order "
+         "of the draws inside an operation (a reordering would be reported as no-failing-input-found).")
+
 NA_REASON = "check not built yet in this round (see DESIGN.md §8 order of construction); no weaker technique substituted"
 
 
